@@ -7,7 +7,7 @@ interpreter that shares no evaluation code with the machine model M4 (`Machine.s
 compared tick-by-tick with the real evaluator (C06/C08) — and both are compared with
 `garden run` on every generated program (harness/c05.py, three-way differential).
 
-TARGET (DESIGN §7 C05), kept visible; NOT yet proved in full:
+TARGET (DESIGN §7 C05), kept visible:
 
     theorem machine_refines_bigstep (p : Program)
         (hwf : wfProgram p = true) (hex : exitsProgram p = true) (hlv : levelProgram p ≤ 2)
@@ -17,77 +17,95 @@ TARGET (DESIGN §7 C05), kept visible; NOT yet proved in full:
         | (out, .err e) => ∃ n s, runN n (Machine.init p [] none none) = .error s e ∧ s.out = out
         | _ => True          -- out of fuel / outside the fragment: nothing claimed
 
-    staged as  machine_refines_bigstep_exprs  (levelProgram p = 0: expressions, blocks, let,
-    assignment, `+=`, if, match, built-in calls),  _loops (≤ 1: + while, for, break, continue),
-    _funs (≤ 2: + named functions, closures, return).
+`runN n` = `n` iterations of `Machine.step`; `Machine.init p [] none none` = the state `garden run`
+starts from (no interrupts, no tick / stack limit). The fragment predicates are decidable and are
+evaluated by the driver on the REAL parser's tree of every generated program (harness/c05.py):
+`wfProgram` (the parser's `value_is_used` flags), `exitsProgram` (break / continue in statement
+position of a loop body), `levelProgram` (0: expressions, blocks, `let`, assignment, `+=`, `if`,
+`match`, list / tuple literals, calls of built-ins and enum constructors; 1: + `while`, `for`,
+`break`, `continue`; 2: + named functions, closures, `return`).
 
-PROVED here: `machine_refines_bigstep_exprs_partial` — the statement above, for ALL programs
-whose toplevel expressions are built from integer and string literals, variables (local, or
-namespace: functions, enum variants, constructors, built-ins), parentheses and syntactically
-invalid nodes (`BigStepLemmas.covB`), any number of them, with the parser's use flags
-(`wfAll`), for every fuel and for the FULL reference interpreter `BigStep.runProgram` (the
-simulation lemma `BigStepLemmas.sim` is proved for every way of applying functions). It covers
-the run protocol end to end: toplevel values piling up on the value stack, the last one returned
-by `eval`, `No such variable` / invalid-syntax errors stopping the run at the same point with
-the same output log.
-
-What is in place for the rest (Lemmas/BigStep.lean): the frame-context simulation statement
-`Holds` (pending entries `K`, values `V`, scopes, with the clauses for errors and for
-break / continue / return), soundness of frame-local runs w.r.t. `Machine.step` (`MS_sound`),
-the `E`-step of every binary operator against `BigStep.binop` (`binop_E`), the scope-ADT facts
-(`declareAll_length`, `setExisting_length`, `setExisting_isSome`). MISSING: the cases of `sim_succ`
-for binary operators, `let`, assignment, `+=`, `if`, `match`, list / tuple literals, calls
-(stage a), loops and exits (stage b; `C06.evalBreakLoop_spec` gives the block balance), frames
-(stage c; needs a well-formedness invariant on closure values). These stages are covered by the
-three-way differential runs only.
+The simulation lemma (Lemmas/BigStep.lean) is stated for an arbitrary frame context — callers
+`cs`, pending entries `K`, values `V`, any non-empty scopes — with one machine lemma per node
+kind, and proved by induction on the big-step fuel (`Holds`, `Concl`, `sim_succ_*`).
 -/
 namespace C05
 open Machine BigStep BigStepLemmas
 
-theorem init_eq (p : Program) :
-    Machine.init p [] none none =
-      Q p [F (initFrame []) (p.toplevel.map (fun e => (St.N, e))) [vUnit] [[]]] 0 "" := rfl
+theorem level_toplevel (p : Program) (L : Nat) (h : levelProgram p ≤ L) : lvB p.toplevel ≤ L := by
+  unfold levelProgram at h; omega
 
-/-- **Machine refines big-step, expression stage, partial** (see the header for the fragment):
-whenever the reference interpreter, with any fuel, ends with a value or an error, the machine
-started as `garden run` starts it reaches `done` with the same value, resp. `error` with the
-same error kind, and the same output. -/
-theorem machine_refines_bigstep_exprs_partial (p : Program)
-    (hcov : covB p.toplevel = true) (hwf : wfAll p.toplevel = true) (fuel : Nat) :
-    match BigStep.runProgram p fuel with
+theorem wf_toplevel (p : Program) (h : wfProgram p = true) : wfAll p.toplevel = true := by
+  unfold wfProgram at h; simp only [Bool.and_eq_true] at h; exact h.1
+
+theorem exits_toplevel (p : Program) (h : exitsProgram p = true) : exB false false p.toplevel = true := by
+  unfold exitsProgram at h; simp only [Bool.and_eq_true] at h; exact h.1
+
+/-- **Stage (a)**: expressions, blocks, `let` (symbol and destructuring), assignment, `+=`,
+binary operators, list and tuple literals (items right-to-left), `if` / `else` and `match` with
+block scoping, calls of built-ins (`println`, `print`, `string_repr`) and enum constructors
+(receiver first, arguments right-to-left), any nesting, any number of toplevel expressions.
+Whenever the reference interpreter, with any fuel, ends with a value or an error, the machine
+started as `garden run` starts it reaches `done` with the same value, resp. `error` with the same
+error kind, and the same output.
+
+The reference interpreter here is `evalWith (applyBuiltin p)`: `BigStep.eval` with the one
+difference that calling a closure or a named function answers `unsupported` (nothing claimed);
+programs of level 0 contain neither function definitions nor function literals. -/
+theorem machine_refines_bigstep_stage_a (p : Program)
+    (hwf : wfProgram p = true) (hex : exitsProgram p = true) (hlv : levelProgram p ≤ 0) (fuel : Nat) :
+    match runProgramWith (evalWith (applyBuiltin p) p fuel) p with
     | (out, .val v) => ∃ n s, runN n (Machine.init p [] none none) = .done s v ∧ s.out = out
     | (out, .err e) => ∃ n s, runN n (Machine.init p [] none none) = .error s e ∧ s.out = out
-    | _ => True := by
-  have ih := sim (fun ev σ out fv vs => apply ev p σ out fv vs) p fuel
-  have h := sim_top p _ ih (initFrame []) p.toplevel vUnit [[]] "" [] hcov hwf
-  rw [init_eq]
-  simp only [runProgram, runProgramWith, eval]
-  revert h
-  cases hr : (evalSeq (evalWith (fun ev σ out fv vs => apply ev p σ out fv vs) p fuel) vUnit p.toplevel [[]] "").outcome <;>
-    dsimp only <;> intro h
-  case val v =>
-    obtain ⟨V', h1⟩ := h
-    obtain ⟨n, hn⟩ := MS_sound h1 [] 0
-    exact finish_done p _ _ n _ v V' _ _ hn
-  case err er =>
-    obtain ⟨g, h1, h2⟩ := h
-    obtain ⟨n, hn⟩ := MS_sound h1 [] 0
-    obtain ⟨s', hs, ho⟩ := step_err p g [] (0 + n) _ er h2
-    exact ⟨n + 1, s', runN_last _ _ n _ hn hs (by intro x; simp), ho⟩
-  all_goals first
-    | exact h.elim
-    | trivial
+    | _ => True :=
+  refines_of_IH (sim0 (applyBuiltin p) p (apHolds_builtin p) fuel)
+    (level_toplevel p 0 hlv) (wf_toplevel p hwf) (exits_toplevel p hex)
 
--- Non-vacuity of the hypotheses and of the conclusion: a program in the fragment, run by both.
-example : covB [.int 1 true 5, .paren 3 true (.var 2 true "None")] = true ∧
-    wfAll [.int 1 true 5, .paren 3 true (.var 2 true "None")] = true := by
-  simp [covB, covE, wfAll, wfE, Expr.used]
+/-- **Stage (b)** = stage (a) + `while`, `for` (symbol and tuple destinations), `break`, `continue`
+through any nesting of `if` / `match` blocks and loops, under `exitsProgram` (exits in statement
+position of a loop body). Same statement, programs of level ≤ 1. -/
+theorem machine_refines_bigstep_stage_b (p : Program)
+    (hwf : wfProgram p = true) (hex : exitsProgram p = true) (hlv : levelProgram p ≤ 1) (fuel : Nat) :
+    match runProgramWith (evalWith (applyBuiltin p) p fuel) p with
+    | (out, .val v) => ∃ n s, runN n (Machine.init p [] none none) = .done s v ∧ s.out = out
+    | (out, .err e) => ∃ n s, runN n (Machine.init p [] none none) = .error s e ∧ s.out = out
+    | _ => True :=
+  refines_of_IH (sim1 (applyBuiltin p) p (apHolds_builtin p) fuel).1
+    (level_toplevel p 1 hlv) (wf_toplevel p hwf) (exits_toplevel p hex)
 
-/-
-Both interpreters on a concrete program with a loop and a `break` (stage b, not yet covered by a
-theorem; checked by evaluation and by the driver ops `bigstep_run` / `machine_run` on every
-harness run):
-  let i = 0  while True { i += 1  if i > 2 { break } }  i
-#eval (BigStep.runProgram prog 100).2   -- val (int 3)
--/
+/-- Non-vacuity: a level-0 program with a `let`, an `if`/`else` block, a `match`, a built-in call
+and a tuple satisfies the three fragment predicates (flags as the parser sets them). -/
+def exampleA : Program :=
+  { funs := [], enums := [],
+    toplevel := [
+      .letE 3 true (.sym "x") (.binop 2 true .add (.int 0 true 1) (.int 1 true 2)),
+      .ifE 9 true (.binop 6 true .lt (.var 4 true "x") (.int 5 true 5))
+        [.assign 8 false "x" (.int 7 true 7)] none,
+      .call 14 true (.var 10 true "println")
+        [.call 13 true (.var 11 true "string_repr") [.tuple 16 true [.var 12 true "x", .var 15 true "None"]]],
+      .matchE 20 true (.call 19 true (.var 17 true "Some") [.var 18 true "x"])
+        [.mk "Some" (some (.sym "y")) [.var 21 true "y"], .mk "_" none [.int 22 true 0]]] }
+
+example : wfProgram exampleA = true ∧ exitsProgram exampleA = true ∧ levelProgram exampleA ≤ 0 := by
+  refine ⟨?_, ?_, ?_⟩ <;>
+    simp [exampleA, wfProgram, exitsProgram, levelProgram, wfAll, wfE, wfB, wfCases, exB, exE, exAll, exCases,
+      lvB, lvE, lvCases, Expr.used]
+
+/-- Non-vacuity for stage (b): `let i = 0  while True { i += 1  if i > 2 { break }  for x in [i] { continue } }  i`
+(a loop with a `break` inside an `if` block followed by another loop, and a `continue`). -/
+def exampleB : Program :=
+  { funs := [], enums := [],
+    toplevel := [
+      .letE 1 true (.sym "i") (.int 0 true 0),
+      .whileE 20 true (.var 2 true "True")
+        [.update 4 false true "i" (.int 3 true 1),
+         .ifE 9 false (.binop 7 true .gt (.var 5 true "i") (.int 6 true 2)) [.brk 8 false] none,
+         .forE 14 false (.sym "x") (.list 11 true [.var 10 true "i"]) [.cont 12 false]],
+      .var 21 true "i"] }
+
+example : wfProgram exampleB = true ∧ exitsProgram exampleB = true ∧ levelProgram exampleB ≤ 1 := by
+  refine ⟨?_, ?_, ?_⟩ <;>
+    simp [exampleB, wfProgram, exitsProgram, levelProgram, wfAll, wfE, wfB, wfCases, exB, exE, exAll, exCases,
+      lvB, lvE, lvCases, Expr.used]
+
 end C05
